@@ -1,7 +1,34 @@
 package h
 
 import (
+	"cosmossdk.io/math"
+	sdk "github.com/cosmos/cosmos-sdk/types"
+
 	orbitertypes "github.com/noble-assets/orbiter/v2/types"
+	actiontypes "github.com/noble-assets/orbiter/v2/types/controller/action"
+	fwdtypes "github.com/noble-assets/orbiter/v2/types/controller/forwarding"
+	"github.com/noble-assets/orbiter/v2/types/core"
 )
 
 func defaultGenesis() *orbitertypes.GenesisState { return orbitertypes.DefaultGenesisState() }
+
+func fwdtypesNewCCTP(domain uint32) (*core.Forwarding, error) {
+	return fwdtypes.NewCCTPForwarding(domain, []byte{1, 2, 3}, nil, nil)
+}
+
+func fwdtypesNewHyp(domain uint32) (*core.Forwarding, error) {
+	return fwdtypes.NewHyperlaneForwarding(make([]byte, 32), domain, make([]byte, 32), nil, "", math.ZeroInt(), sdk.Coin{Denom: "uusdc", Amount: math.ZeroInt()}, nil)
+}
+
+func fwdtypesNewInternal() (*core.Forwarding, error) { return fwdtypes.NewInternalForwarding(user1.String()) }
+
+// feeAction: one basis-point fee entry to feeR1.
+func feeAction(bps uint32) *core.Action {
+	b, err := actiontypes.NewFeeBasisPoints(bps)
+	must(err)
+	fi, err := actiontypes.NewFeeInfo(feeR1.String(), b)
+	must(err)
+	a, err := actiontypes.NewFeeAction(fi)
+	must(err)
+	return a
+}
